@@ -145,7 +145,9 @@ def probe(res, rng, n):
             want = 2 * wt * (yt * math.log(yt / mut) - (yt - mut)) if fam == 'PoissonDist' else \
                 2 * wt * (yt * math.log(yt / mut) + (L - yt) * math.log((L - yt) / (L - mut)))
             res.case(('tiny-targets', fam, rep))
-            if not (math.isclose(got, want, rel_tol=1e-6, abs_tol=1e-12 * wt * (yt + mut)) and abs(zero) <= 1e-12 * wt * yt and got >= -1e-12 * wt * (yt + mut)):
+            # binary64 floor of the formula as coded: the binomial term (L - y) log((L - y) / (L - mu)) is evaluated with absolute error eps * L
+            floor = 1e-12 * wt * (yt + mut) + (16 * 2.3e-16 * wt * L if fam == 'BinomialDist' else 0.0)
+            if not (math.isclose(got, want, rel_tol=1e-6, abs_tol=floor) and abs(zero) <= floor and got >= -floor):
                 res.violations.append(dict(what='unit deviance of a tiny positive target is not 2 w [y log(y/mu) - (y - mu)] (binomial: + (L-y) log((L-y)/(L-mu))): '
                                                 'the target was treated as an exact zero, or the deviance is negative / non-zero at y = mu', finding=None,
                                            input=dict(family=fam, levels=L, y=yt, mu=mut, weight=wt), observed=dict(deviance=got, deviance_at_y_eq_mu=zero), expected=want))
